@@ -440,7 +440,7 @@ def unify(st, a, b):
         raise Violation('contradictory positions %r vs %r' % (a, b))
 
 class An:
-    def __init__(self): self.paths = []
+    def __init__(self, line='line'): self.paths = []; self.line = line
     def ev(self, e, st):
         if isinstance(e, ast.Constant):
             if e.value is None: return NONE
@@ -478,7 +478,7 @@ class An:
             if isinstance(e.func, ast.Attribute) and e.func.attr == 'endswith':
                 base = self.ev(e.func.value, st); arg = self.ev(e.args[0], st)
                 if isinstance(arg, C) and arg.v == '\n': return B('ends_nl', base)
-            if isinstance(e.func, ast.Attribute) and e.func.attr == 'get' and norm(e.func.value) == 'field_name_cache':
+            if isinstance(e.func, ast.Attribute) and e.func.attr == 'get' and isinstance(e.func.value, ast.Name) and e.func.value.id not in st.env and len(e.args) == 1:
                 k = self.ev(e.args[0], st); return ('memo', k)           # None or text-equal to key
             if fn == 'list' or 'takewhile' in fn: return Opaque('lookahead')
             if isinstance(e.func, ast.Attribute) and e.func.attr == 'join': return Opaque('joined-lookahead')
@@ -545,13 +545,28 @@ class An:
         # p.b = p.a  =>  symbol(b) := a - const(b)   (b = c_b + sym  ; a = pos)
         return Pos(p.a.c - p.b.c, p.a.syms)
     def branch(self, test, st):
+        if isinstance(test, ast.UnaryOp) and isinstance(test.op, ast.Not):
+            return [(s2, not v) for s2, v in self.branch(test.operand, st)]
+        if isinstance(test, ast.BoolOp):
+            isand = isinstance(test.op, ast.And)
+            out = []
+            def rec(i, s_):
+                for s2, v in self.branch(test.values[i], s_):
+                    if v != isand or i == len(test.values) - 1: out.append((s2, v))
+                    else: rec(i + 1, s2)
+            rec(0, st)
+            return out
         if isinstance(test, ast.Name):
             if test.id in st.truth: return [(st, st.truth[test.id])]
             res = []
-            for s2, val in self.truthy(st.env.get(test.id, Opaque()), st):
-                s2.truth[test.id] = val; res.append((s2, val))
+            v0 = st.env.get(test.id, Opaque())
+            for s2, val in self.truthy(v0, st):
+                s2.truth[test.id] = val
+                if isinstance(v0, OptP) and val: s2.env[test.id] = v0.p       # truthy: the group took part in the match
+                res.append((s2, val))
             return res
-        if isinstance(test, ast.Compare) and len(test.ops) == 1 and isinstance(test.left, ast.Name) and isinstance(test.ops[0], (ast.Is, ast.IsNot)):
+        if isinstance(test, ast.Compare) and len(test.ops) == 1 and isinstance(test.left, ast.Name) and isinstance(test.ops[0], (ast.Is, ast.IsNot)) \
+                and isinstance(test.comparators[0], ast.Constant) and test.comparators[0].value is None:
             v = st.env.get(test.left.id); isnot = isinstance(test.ops[0], ast.IsNot)
             if isinstance(v, NoneV): return [(st, not isnot)]
             if isinstance(v, tuple) and v[0] == 'memo':
@@ -562,19 +577,23 @@ class An:
                 a, b = st.clone(), st.clone(); a.env[test.left.id] = v.p
                 b.env[test.left.id] = NONE; unify(b, v.p.a, v.p.b)
                 return [(a, isnot), (b, not isnot)]
-        if isinstance(test, ast.BoolOp) and isinstance(test.op, ast.Or) and norm(test) == "value is None or value == ''":
-            v = st.env.get('value')
-            if isinstance(v, OptP):
+        if isinstance(test, ast.Compare) and len(test.ops) == 1 and isinstance(test.ops[0], (ast.Eq, ast.NotEq)) \
+                and isinstance(test.comparators[0], ast.Constant) and test.comparators[0].value == '':
+            # x == '': the piece is empty (an unmatched optional group is not equal to '')
+            v = self.ev(test.left, st); eq = isinstance(test.ops[0], ast.Eq)
+            if isinstance(v, NoneV): return [(st, not eq)]
+            if isinstance(v, C): return [(st, (v.v == '') == eq)]
+            if isinstance(v, (P, OptP)):
+                p = v.p if isinstance(v, OptP) else v
                 a, b = st.clone(), st.clone()
-                unify(a, v.p.a, v.p.b); a.env['value'] = NONE
-                b.env['value'] = v.p
-                return [(a, True), (b, False)]
-        if isinstance(test, ast.Call) or isinstance(test, ast.UnaryOp):
-            v = self.ev(test.operand if isinstance(test, ast.UnaryOp) else test, st)
+                unify(a, p.a, p.b)
+                if isinstance(v, OptP) and isinstance(test.left, ast.Name): a.env[test.left.id] = p
+                if st.norm(p.a) == st.norm(p.b): return [(a, eq)] if not isinstance(v, OptP) else [(a, eq), (b, not eq)]
+                return [(a, eq), (b, not eq)]
+        if isinstance(test, ast.Call):
+            v = self.ev(test, st)
             if isinstance(v, B):
-                out = []
-                for s2, val in self.truthy(v, st): out.append((s2, (not val) if isinstance(test, ast.UnaryOp) else val))
-                return out
+                return list(self.truthy(v, st))
         return [(st.clone(), True), (st.clone(), False)]
     def do_yield(self, tok, st, node):
         assert isinstance(tok, Tok), tok
@@ -611,13 +630,13 @@ class An:
         if isinstance(s, ast.Delete): return [st]
         if isinstance(s, ast.For) and isinstance(s.iter, ast.Call) and isinstance(s.iter.func, ast.Attribute) and s.iter.func.attr == 'takewhile':
             # look-ahead merge (zero or more following lines are appended to `line`): decided by C01.R6
-            if not all(isinstance(b, ast.AugAssign) and norm(b.target) == 'line' for b in s.body):
+            if not all(isinstance(b, ast.AugAssign) and norm(b.target) == self.line for b in s.body):
                 raise Unsupported(norm(s)[:80])
             a, b = st.clone(), st.clone(); b.env['__merged'] = True
             return [a, b]
         if isinstance(s, ast.Expr) and isinstance(s.value, ast.Yield):
             self.do_yield(self.ev(s.value.value, st), st, s); return [st]
-        if isinstance(s, ast.AugAssign) and isinstance(s.target, ast.Name) and s.target.id == 'line':
+        if isinstance(s, ast.AugAssign) and isinstance(s.target, ast.Name) and s.target.id == self.line:
             v = self.ev(s.value, st)
             if isinstance(v, C) and v.v == '\n':     # auto-correct: line += "\n"  (mode analysed separately)
                 st.nl_at.append(st.L); return [st]
